@@ -150,7 +150,7 @@ const RANDOM_CMDS: &[&[u8]] = &[b"RANDOMKEY", b"SPOP", b"SRANDMEMBER", b"XADD"];
 /// bookkeeping of the blocking-pop ops (BCONN/BSEND/BRECV/BCLOSE): server-side connection ids,
 /// requests written minus frames received per connection, frames received but not yet reported
 #[derive(Default)]
-pub struct Blk { pub ids: HashMap<i64, i128>, pub owed: HashMap<i128, i64>, pub inbox: HashMap<i128, Vec<V>>, pub eof: std::collections::HashSet<i128>, pub broken: std::collections::HashSet<i128>, pub drift: bool, pub finite: HashMap<i128, bool> }
+pub struct Blk { pub ids: HashMap<i64, i128>, pub owed: HashMap<i128, i64>, pub inbox: HashMap<i128, Vec<V>>, pub eof: std::collections::HashSet<i128>, pub broken: std::collections::HashSet<i128>, pub drift: bool, pub finite: HashMap<i128, bool>, pub ctl_dead: bool }
 
 pub struct Runner { pub srv: Srv, pub conns: HashMap<i128, Client>, pub t0: Instant, pub logical: i128, pub drift_bad: bool, pub queues: HashMap<i128, Vec<Vec<u8>>>, pub password: Option<String>, pub ctl_authed: bool, pub blk: Blk }
 
@@ -410,7 +410,7 @@ impl Runner {
     /// wait until the event loop has gone through 5 more full iterations (VERIF ITER): everything the
     /// requests written so far cause - replies, wake-ups, deliveries, reads of unblocked connections - is done
     pub fn settle(&mut self) -> bool {
-        let n0 = match self.ctl_int(&[b"VERIF", b"ITER"]) { Some(n) => n, None => return false };
+        let n0 = match self.ctl_int(&[b"VERIF", b"ITER"]) { Some(n) => n, None => { self.blk.ctl_dead = true; return false } };
         let t0 = Instant::now();
         loop {
             match self.ctl_int(&[b"VERIF", b"ITER"]) { Some(n) if n >= n0 + 6 => return true, Some(_) => {}, None => return false }
@@ -455,7 +455,11 @@ impl Runner {
             _ => None,
         }
     }
-    pub fn finish(mut self) -> bool { let alive = self.srv.alive(); self.conns.clear(); self.srv.stop(false); alive }
+    pub fn finish(mut self) -> bool {
+        // the control connection of a blocking-pop history went dead: give a server whose event loop has ended
+        // the time to finish exiting before its liveness is sampled
+        if self.blk.ctl_dead { let t0 = Instant::now(); while self.srv.alive() && t0.elapsed() < Duration::from_secs(4) { std::thread::sleep(Duration::from_millis(20)); } }
+        let alive = self.srv.alive(); self.conns.clear(); self.srv.stop(false); alive }
 }
 
 /// run a whole case on a fresh server
